@@ -48,7 +48,7 @@ OpOf(r) == CASE r = <<>> -> "" [] r = <<"<">> -> "<" [] r = <<"<", "=">> -> "<="
 OpText(op) == CASE op = "" -> <<>> [] op = "<" -> <<"<">> [] op = "<=" -> <<"<", "=">> [] op = "=" -> <<"=">>
                 [] op = "~" -> <<"~">> [] op = ">=" -> <<">", "=">> [] op = ">" -> <<">">>
 
-Any == <<"*">>
+AnyPat == <<"*">>
 Unspec == [kind |-> "unspec"]
 RejectQ == [kind |-> "reject"]
 \* the structure of an accepted query; absent category / slot / sub-slot are the pattern "*"
@@ -78,7 +78,7 @@ ParseBody(b, hasslot, slot, hassub, sub, repo) ==
         r == SubSeq(b, Len(opr) + 1, Len(b))
         sl == FirstIdx(r, "/")
         hascat == sl # 0
-        cat == IF hascat THEN Before(r, sl) ELSE Any
+        cat == IF hascat THEN Before(r, sl) ELSE AnyPat
         pv == IF hascat THEN After(r, sl) ELSE r
     IN IF op = "bad" \/ "/" \in Chars(pv) \/ (hascat /\ ~IsNamePat(cat)) THEN Unspec
        ELSE IF op = "" THEN
@@ -91,12 +91,12 @@ ParseBody(b, hasslot, slot, hassub, sub, repo) ==
                     THEN MkQ(op, hascat, cat, pkg, v, hasslot, slot, hassub, sub, repo) ELSE Unspec
 ParseSlotted(t, repo) ==
     LET k == LastIdx(t, ":") IN
-    IF k = 0 THEN ParseBody(t, FALSE, Any, FALSE, Any, repo)
+    IF k = 0 THEN ParseBody(t, FALSE, AnyPat, FALSE, AnyPat, repo)
     ELSE LET b == Before(t, k)
              sp == After(t, k)
              j == FirstIdx(sp, "/")
              slot == IF j = 0 THEN sp ELSE Before(sp, j)
-             sub == IF j = 0 THEN Any ELSE After(sp, j)
+             sub == IF j = 0 THEN AnyPat ELSE After(sp, j)
          IN IF ":" \in Chars(b) \/ ~IsSlotPat(slot) \/ (j # 0 /\ ~IsSlotPat(sub)) THEN Unspec
             ELSE ParseBody(b, TRUE, slot, j # 0, sub, repo)
 ParseQ0(t) ==
